@@ -12,8 +12,10 @@ FS_CLASSES = ['content', 'size', 'delete', 'retype', 'stray', 'touch', 'stray-lo
               'stray-special', 'stray-manifest-name']
 MAN_CLASSES = ['m-digest', 'm-size', 'm-drop', 'm-ghost', 'm-conflict',
                'm-disjoint-wrong', 'm-unsupported', 'm-chain', 'm-dup-ignore',
-               'm-compatible-dup', 'm-dup-manifest-entry', 'm-manifest-dup-wrong']
-ODD_CLASSES = ['file-over-dir', 'm-misc-dup', 'm-ignore-file', 'm-entry-for-dir']
+               'm-compatible-dup', 'm-dup-manifest-entry', 'm-manifest-dup-wrong',
+               'm-dist-twin']
+ODD_CLASSES = ['file-over-dir', 'm-misc-dup', 'm-ignore-file', 'm-entry-for-dir',
+               'm-manifest-data-twin']
 UNREG_CLASSES = ['unreg-valid', 'unreg-stale', 'unreg-invalid', 'unreg-badcompressed']
 
 
@@ -282,6 +284,31 @@ def mutate(rng, root, layout, info, klass):
                    else [rng.choice(mtext.supported_hashes())])
         layout['mans'][m]['entries'].append(dup)
         rec['path'] = mtext.full_path(os.path.dirname(m), e)
+    elif klass == 'm-dist-twin':
+        # two DIST entries with one name but different size / digests in one Manifest
+        m = rng.choice(sorted(layout['mans']))
+        ents = layout['mans'][m]['entries']
+        name = 'twin-%d.tar.gz' % rng.randrange(100)
+        for k in range(2):
+            ents.insert(rng.randrange(len(ents) + 1),
+                        {'tag': 'DIST', 'path': name, 'size': 100 + k,
+                         'sums': {'SHA256': ('%02x' % (17 * (k + 1))) * 32}})
+        rec['path'] = name
+    elif klass == 'm-manifest-data-twin':
+        # a sub-Manifest additionally listed by a (correct) DATA/MISC entry next to its
+        # MANIFEST entry (the test-suite's DuplicateManifestAsDataEntryLayout)
+        cands = [(m, e) for m, md in layout['mans'].items()
+                 for e in md['entries'] if e['tag'] == 'MANIFEST'
+                 and e.get('_auto') is not None]
+        if not cands:
+            return None
+        m, e = rng.choice(cands)
+        dup = dict(e, tag=rng.choice(['DATA', 'DATA', 'MISC']), _auto=list(e['_auto']))
+        if rng.random() < 0.5:
+            layout['mans'][m]['entries'].append(dup)
+        else:
+            layout['mans'][m]['entries'].insert(0, dup)
+        rec['path'] = mtext.full_path(os.path.dirname(m), e)
     elif klass == 'm-manifest-dup-wrong':
         # sub-Manifest X registered twice: correctly (hash set H1) in the top-level
         # Manifest, through which it gets loaded, and wrongly (disjoint hash set) in
@@ -366,7 +393,19 @@ def mutate(rng, root, layout, info, klass):
             raw = mtext.compress(fmt, rng.choice([b'this is not a Manifest\n',
                                                   b'DATA\n', b'DATA x notanumber\n']))
         else:
-            raw = b'certainly not compressed data \x00\x01\x02'
+            how = rng.choice(['garbage', 'truncated', 'corrupt-body', 'corrupt-tail'])
+            good = mtext.compress(fmt, b'DATA a 0\n' * 50)
+            if how == 'garbage':
+                raw = b'certainly not compressed data \x00\x01\x02'
+            elif how == 'truncated':
+                raw = good[:rng.randrange(1, len(good))]
+            elif how == 'corrupt-body':
+                # intact header, damaged compressed stream
+                k = rng.randrange(10, max(11, len(good) - 12))
+                raw = good[:k] + b'\xff' * min(10, len(good) - k) + good[k + 10:]
+            else:
+                raw = good[:-4] + bytes(b ^ 0x5a for b in good[-4:])
+            rec['how'] = how
         ops.append({'op': 'write', 'p': f, 'c': common.spec_of(raw)})
     elif klass == 'm-chain':
         subs = [m for m, md in layout['mans'].items() if md['parent'] is not None]
